@@ -385,7 +385,9 @@ def check_map(run, name, grp, coords, shape, exprs, descr, plan):
             if "rate" in what:
                 i.rate_quality(regressor="Decision Tree")
             if "refit" in what:
-                i.fit_model(weight_cp=0, range_x=[-2e-6, 2e-6])
+                # (with a geometrical correction factor: the map shows the
+                # contact point in measured units, as the curve reports it)
+                i.fit_model(weight_cp=0, range_x=[-2e-6, 2e-6], gcf_k=0.5)
             if "edit" in what:
                 # a setting changed without a refit: the curve is unfitted
                 i.fit_properties["weight_cp"] = 3e-6
